@@ -111,6 +111,14 @@ def build_chain(spec, chrom, kinds, tip_start=False, tip_end=False, naming=0, ex
         second = [n for n in spec.chroms[chrom] if spec.nodes[n]["refpos"] == (2 if tip_start else 1)]
         target = second[0] if second else prev
         spec.link(target, "+", tnode, "+")
+    if extra == "tip2":
+        # a dangling haplotype tip of two nodes: h1 becomes an articulation point that is not a reference node
+        h1 = spec.node("%sy98" % c, "hap_%sy98" % c, 1)
+        h2 = spec.node("%sy99" % c, "hap_%sy99" % c, 1)
+        second = [n for n in spec.chroms[chrom] if spec.nodes[n]["refpos"] == (2 if tip_start else 1)]
+        target = second[0] if second else prev
+        spec.link(target, "+", h1, "+")
+        spec.link(h1, "+", h2, "+")
     if extra == "tricycle":
         # three articulation points on one cycle: c1-c2-c3-c1, each with a pendant reference node
         cyc = [spec.node("%sq%d" % (c, i), "hap_%sq%d" % (c, i), 1) for i in range(3)]
